@@ -73,13 +73,15 @@ class Query:
         except S.Unsupported as e:
             # The current source uses a construct the translator cannot encode, so the solver cannot decide.
             # Before giving up (harness error), look for a concrete disagreement on a fixed grid: a reproduced
-            # disagreement is a violation however it was found; none found => still a harness error.
+            # disagreement is a violation however it was found; none found => inconclusive (stated in the evidence).
             found = fallback_search(self.kind, self.which)
             if found is not None:
                 return {'status': 'REFUTED', 'args': found, 'solver_queries': 0, 'solver_time_s': 0.0, 'paths': 0,
                         'message': 'translator: %s; disagreement found by the fallback differential grid' % e,
                         'extra': {'translator_unsupported': str(e), 'decided_by': 'fallback grid (not the solver)'}}
-            raise
+            return {'status': 'UNKNOWN', 'solver_queries': 0, 'solver_time_s': 0.0, 'paths': 0,
+                    'message': 'translator cannot encode the current source (%s); the fallback differential grid found no disagreement: inconclusive' % e,
+                    'extra': {'translator_unsupported': str(e), 'decided_by': 'nothing (fallback grid silent)'}}
 
     def _query(self):
         import z3
